@@ -3,6 +3,7 @@ package main
 import (
 	"context"
 	"encoding/hex"
+	"encoding/json"
 	"fmt"
 	"go/types"
 	"strings"
@@ -11,6 +12,8 @@ import (
 )
 
 func contextBackground() context.Context { return context.Background() }
+
+func encodingJSONUnmarshal(data []byte, v any) { json.Unmarshal(data, v) }
 
 type dumpCtx struct {
 	ex    *Exec
